@@ -217,6 +217,21 @@ func typed(x any) any {
 	return x
 }
 
+// flatRecord: every field a primitive or a slice of primitives (what a Go struct value of the
+// destination type can carry to the field schemas unchanged)
+func flatRecord(n *Node) bool {
+	for _, f := range n.Fields {
+		k := f.Node
+		if k.Kind == KSlice {
+			k = k.Elem
+		}
+		if !IsPrim(k.Kind) || k.Named {
+			return false
+		}
+	}
+	return true
+}
+
 func isIdent(k string) bool {
 	for _, c := range k {
 		if !(c == '_' || (c >= '0' && c <= '9') || (c >= 'a' && c <= 'z') || (c >= 'A' && c <= 'Z')) {
@@ -248,6 +263,28 @@ func NewPurityCase(g *Gen, id int) (*Case, []string, string) {
 				return typed(in.Go(nil))
 			}
 			return in.Go(nil)
+		}
+		if n.Kind == KPtr && n.Elem.Kind == KStruct && n.Elem.Exported && flatRecord(n.Elem) && g.R.P(70) {
+			// the input is a pointer to a value of the destination's own struct type (a record loaded
+			// elsewhere): Parse reads it, the destination gets memory of its own
+			st := TypeOf(n.Elem)
+			sv := g.DestValue(n.Elem, st, false)
+			vis := IVal{Kind: "map", node: n.Elem}
+			for _, f := range n.Elem.Fields {
+				if key := feKey(f, ""); key == GoName(f.Key) { // (a zog tag that is not the field's name hides it)
+					_, iv := toMap(f.Node, sv.FieldByName(GoName(f.Key)))
+					vis.M = append(vis.M, IKV{K: key, V: iv})
+				}
+			}
+			sort.Slice(vis.M, func(a, b int) bool { return vis.M[a].K < vis.M[b].K })
+			in = vis
+			c.In = &vis
+			c.Shape += ":ptrinput"
+			mkData = func() any {
+				q := reflect.New(st)
+				q.Elem().Set(deepCopy(sv))
+				return q.Interface()
+			}
 		}
 		if n.Kind == KStruct && in.Kind == "map" && g.R.P(15) {
 			if vis, mk, ok := StructInput(in); ok {
